@@ -1,6 +1,7 @@
 package props
 
 import (
+	"strings"
 	"testing"
 
 	"exoverif/sim"
@@ -86,9 +87,29 @@ func init() {
 	base.ID, base.Name = "C13", "C13"
 	base.Rule = "the same histories with 35% perturbed submissions (every field: feeder id, base block, nonce, sources, decimals, timestamps around +5 s, size around 1000 bytes, forged / foreign / missing signatures, two messages in one transaction, former validators and ordinary accounts) in DeliverTx, CheckTx and ReCheckTx, against an admission/counting model with byte-level store and memory diffs; " +
 		"non-trivial = a history containing a rejected, an admitted-but-uncounted and a counted submission; distinct = hash of the (kind, outcome) sequence"
-	base.Gen = GenOpts{Weights: oracleWeights(), HostilePct: 35, ExtremePct: 0, Anchor: true, Tempos: []int{3, 8, 30}, CapBits: 40, ClampBits: 40}
+	base.Gen = GenOpts{Weights: oracleWeights(), HostilePct: 35, ExtremePct: 0, Anchor: true, Tempos: []int{3, 8, 30}, CapBits: 40, ClampBits: 40, FailingSecondMsg: true}
+	const k10 = "C13.I4.uncounted-changed-memory/failed-transaction-keeps-first-report"
+	base.Adapt = func(g *GenOpts, active map[string]bool, st *PropStats) {
+		// listed finding: a price transaction whose second message fails keeps its first message's
+		// report in the oracle's memory. While it still reproduces (its saved input is re-run at
+		// the start of every run), such transactions are kept out of the histories and counted.
+		g.AvoidFailingSecondMsg = nil
+		if active[k10] {
+			g.AvoidFailingSecondMsg = avoidedC13
+		}
+	}
+	base.Known = func(m *Machine, v *Violation) string {
+		if v.ID == "C13.I4.uncounted-changed-memory" && strings.Contains(v.Msg, "second message carries nothing new") && activeKnown["C13"][k10] {
+			return k10
+		}
+		return ""
+	}
 	base.NonTrivial = func(m *Machine, invs []Invariant) (bool, []string) {
 		o := invs[0].(*oracleInv)
+		st := getStats("C13")
+		statsMu.Lock()
+		st.Excluded["two-message-transactions-with-failing-second-message-avoided-by-construction"] = *avoidedC13
+		statsMu.Unlock()
 		m.Labels["submissions-rejected"] += o.rejected
 		m.Labels["submissions-admitted-only"] += o.admittedOnly
 		m.Labels["submissions-counted"] += o.counted
@@ -96,6 +117,8 @@ func init() {
 	}
 	registerWorldProp(&base)
 }
+
+var avoidedC13 = new(int)
 
 func TestC12(t *testing.T) { runWorldProp(t, "C12") }
 func TestC13(t *testing.T) { runWorldProp(t, "C13") }
